@@ -149,8 +149,12 @@ func docOpFrom(tag string, p *docPeer, menu []int) bool {
 		op = menu[vf.Choice(tag+".op", len(menu))]
 	}
 	switch op {
-	case 0: // put on root, same key for both replicas
-		_, e := p.doc.PutToObject("k", vfDocValue(tag+".v"))
+	case 0: // put on root, same key for both replicas; the value may equal the one the key holds
+		v := vfDocValue(tag + ".v")
+		if vf.Choice(tag+".same-value", 2) == 1 {
+			v = "kv"
+		}
+		_, e := p.doc.PutToObject("k", v)
 		return e == nil
 	case 1: // delete on root
 		_, e := p.doc.DeleteInObject("k")
